@@ -209,3 +209,17 @@ def _setters(program: Program, run: Run) -> None:
     run.analysed["pagination_order_obligations"] = npag
     if npag < 6:
         raise AnalysisError(f"instance count below floor: statement classes with evaluation-order obligations {npag}")
+
+    # ---- inherited from C13/R1: the position of the row-limiting keywords among the other clause keywords (T-SQL:
+    # SELECT [DISTINCT] [TOP (n)] ...; everywhere: ... ORDER BY ... LIMIT/OFFSET/FETCH at the end)
+    from . import c13
+    sub13 = Run("C13", run.tier)
+    c13.check(program, sub13)
+    ROWLIM = ("TOP", "LIMIT", "OFFSET", "FETCH")
+    for fd in sub13.findings:
+        if not fd.info and fd.key.startswith(("C13/clause-order:", "C13/clause-repeated:")) and any(k in fd.key.rsplit(":", 1)[1] for k in ROWLIM):
+            run.finding("C09/keyword-position:" + fd.key.split(":", 1)[1], "the row-limiting keyword is not where the dialect's grammar puts it: " + fd.what, where=fd.where, rule="inherited from C13/R1")
+    n13 = sum(1 for o in sub13.obligations if o.rule.startswith("C13/R1"))
+    run.ob("C09 (inherited from C13/R1) row-limiting keywords are in grammatical position", "statement skeletons", not any(
+        fd.key.startswith(("C13/clause-order:", "C13/clause-repeated:")) and any(k in fd.key.rsplit(":", 1)[1] for k in ROWLIM) for fd in sub13.findings if not fd.info),
+        detail=f"{n13} clause-order obligations of C13 consulted")
